@@ -337,6 +337,9 @@ def run(ctx):
         n = int(rng.integers(3, 6))
         path = fixtures.generic_path(rng, n, random_frames=True, flags=None, two_d=False, sizes=[int(rng.integers(2, 4)) for _ in range(n)])
         m_ = int(rng.integers(0, n))
+        if k % 2 == 0:
+            # the path was also reversed (and its reversed geometry queried) before the change
+            ray.RayGeometry.from_path(path.reverse()).signed_inc_angle(1)
         path.interfaces[m_].points.coords[...] += rng.normal(size=3) * 6e-3
         if k % 2:
             ray.ray_tracing_for_paths([path])
